@@ -72,6 +72,8 @@ type fakeIdp struct {
 	sidRequired   bool
 	fixedSid      string
 	discoIssParam bool
+	acrSupported  []string
+	locSupported  []string
 	discoPar      bool
 	seq           int
 	inflight      int
@@ -129,6 +131,12 @@ func newFakeIdp() *fakeIdp {
 			"acr_values_supported": []string{"idporten-loa-substantial", "idporten-loa-high"}, "ui_locales_supported": []string{"nb", "nb", "en", "se"},
 			"id_token_signing_alg_values_supported": []string{"RS256"}, "code_challenge_methods_supported": []string{"S256"},
 			"response_types_supported": []string{"code"}, "subject_types_supported": []string{"public"},
+		}
+		if ip.acrSupported != nil {
+			doc["acr_values_supported"] = ip.acrSupported
+		}
+		if ip.locSupported != nil {
+			doc["ui_locales_supported"] = ip.locSupported
 		}
 		if ip.sidRequired {
 			doc["frontchannel_logout_supported"], doc["frontchannel_logout_session_supported"] = true, true
